@@ -229,40 +229,3 @@ Definition store_text_ok (reg : registry) (t : store_text) : bool :=
 
 Definition step_store_text (st : state) (t : store_text) : state :=
   if text_parses t then step_store st (tx_cmd t) else st.
-
-(** ---- decidable descriptions of the inputs on which the code departs from the
-    property statement (the known-finding classes) ---- *)
-(** a float in a time-typed slot whose floor is not a representable second count *)
-Definition float_time_oor (sc : schema) (kv : bytes * json) : bool :=
-  match snd kv with
-  | JNum (Float b) =>
-      match schema_get sc (fst kv) with
-      | Some (FPrim p) | Some (FOpt p) => time_prim p && negb (in_i64 (f64_floor b))
-      | _ => false
-      end
-  | _ => false
-  end.
-
-Definition known_float_time (reg : registry) (cmd : store_cmd) : bool :=
-  match reg_get reg (sc_type cmd), sc_payload cmd with
-  | Some sc, JObj obj => existsb (float_time_oor sc) obj
-  | _, _ => false
-  end.
-
-(** a key or string value (at any depth) that contains '{' or '}' *)
-Definition has_brace_str (s : bytes) : bool := existsb (fun c => (c =? 123)%N || (c =? 125)%N) s.
-
-Fixpoint has_brace (v : json) : bool :=
-  match v with
-  | JStr s => has_brace_str s
-  | JArr l =>
-      (fix go (l : list json) : bool :=
-         match l with [] => false | x :: r => has_brace x || go r end) l
-  | JObj m =>
-      (fix go (m : list (bytes * json)) : bool :=
-         match m with
-         | [] => false
-         | (k, x) :: r => has_brace_str k || has_brace x || go r
-         end) m
-  | _ => false
-  end.
